@@ -109,7 +109,7 @@ impl Minimums {
 impl<K, V> RecursiveContext<K, V>
 where
     K: Hash + Eq + Debug + Clone,
-    V: Debug + Clone,
+    V: Debug + Clone + PartialEq,
 {
     pub fn new(overflow_depth: usize, max_size: usize, cache: Option<Cache<K, V>>) -> Self {
         RecursiveContext {
@@ -281,6 +281,14 @@ where
                 std::mem::replace(&mut self.search_graph[dfn].solution, current_answer);
 
             if solver_stuff.reached_fixed_point(&old_answer, &self.search_graph[dfn].solution) {
+                if old_answer != self.search_graph[dfn].solution {
+                    // We stop although the answer still changed (see
+                    // `reached_fixed_point`: an ambiguous answer ends the
+                    // iteration early). The nodes created during this
+                    // iteration were computed from the old answer, so they
+                    // must not outlive it (or be moved to the cache).
+                    self.search_graph.rollback_to(dfn + 1);
+                }
                 return *minimums;
             }
 
